@@ -352,11 +352,17 @@ Definition run_levels (t : rtree) (lvs : list (list nat)) (st : pst) : option ps
 
 (* StateDiagram.from_hamiltonian(hamiltonian, ref_tree, TTNOFinder.BIPARTITE) on the padded terms;
    None = the code raises (no term: the compound diagram is None) or leaves a diagram that is not
-   well-indexed (see cut_diagram) *)
+   well-indexed (see cut_diagram); terms with prefactor 0 are dropped first (repo commit 2e422fd) *)
+(* `[sd for sd, term in zip(state_diagrams, hamiltonian.terms) if term[0] != 0]`: the single-term diagrams of
+   the terms with a vanishing prefactor are dropped (prefactor test only: a symbol mapped to 0 stays) *)
+Definition nz_term (tm : pterm) : bool := negb (Qeq_bool (fst (fst tm)) 0).
+Definition live_terms (H : list pterm) : list pterm := filter nz_term H.
+(* `if len(state_diagrams) == 0: return cls.from_hamiltonian_base(hamiltonian, ref_tree)`: the BASE diagram of
+   the FULL term list (for an empty term list its compound diagram is None and the next attribute access raises) *)
 Definition from_hamiltonian_bipartite_st (t : rtree) (H : list pterm) : option pst :=
-  match H with
-  | [] => None
-  | _ => run_levels t (levels t) (pipe_init t H)
+  match live_terms H with
+  | [] => match H with [] => None | _ => Some (pipe_init t H) end
+  | H' => run_levels t (levels t) (pipe_init t H')
   end.
 Definition from_hamiltonian_bipartite (t : rtree) (H : list pterm) : option sd :=
   option_map p_sd (from_hamiltonian_bipartite_st t H).
@@ -416,9 +422,9 @@ Fixpoint levels_trace (t : rtree) (lvs : list (list nat)) (st : option pst) : li
       end
   end.
 Definition pipeline_trace (t : rtree) (H : list pterm) : list (option pst) :=
-  match H with
-  | [] => []
-  | _ => Some (pipe_init t H) :: levels_trace t (levels t) (Some (pipe_init t H))
+  match live_terms H with
+  | [] => match H with [] => [] | _ => [Some (pipe_init t H)] end
+  | H' => Some (pipe_init t H') :: levels_trace t (levels t) (Some (pipe_init t H'))
   end.
 
 (* equality of canonical forms (Model.sd_canon) *)
@@ -497,5 +503,8 @@ Fixpoint levels_checks (t : rtree) (lvs : list (list nat)) (st : option pst) : l
       end
   end.
 Definition pipeline_checks (t : rtree) (H : list pterm) : list bool :=
-  levels_checks t (levels t) (Some (pipe_init t H)).
+  match live_terms H with
+  | [] => []
+  | H' => levels_checks t (levels t) (Some (pipe_init t H'))
+  end.
 Definition pipeline_ok (t : rtree) (H : list pterm) : bool := forallb (fun b => b) (pipeline_checks t H).
